@@ -457,9 +457,24 @@ def h_an_the_passthrough():
                 made.append((name, a[1:], k))
                 return vm_.alloc(cls(vm_, SYM, name), {}, tag=name)
             return f
+        class GraphNode(Opaque):
+            def __init__(self, data, parent=None):
+                super().__init__("expression-graph-node")
+                self.data, self.parent = data, parent
+
+            def m_getattr(self, vm_, name):
+                if name in ("data", "parent"):
+                    return getattr(self, name)
+                if name == "root":
+                    return self.parent.m_getattr(vm_, "root") if self.parent is not None else self
+                vm_.raise_("AttributeError", name)
+
+            def m_truth(self, vm_):
+                return True
         vm.spec.stubs["An.__call__"] = fake_ctor("An")
         vm.spec.stubs["The.__call__"] = fake_ctor("The")
         ent = vm.alloc(cls(vm, SYM, "Entity"), {}, tag="entity")
+        ent.fields["_node_"] = GraphNode(ent)
         c = vm.alloc(cls(vm, RQC, "Exactly"), {"value": 0}, tag="Exactly(0)")
         vm.call(vm.module_global(QE, "an"), [ent], {"quantification": c})
         vm.call(vm.module_global(QE, "an"), [ent], {})
@@ -471,6 +486,7 @@ def h_an_the_passthrough():
         # pattern-matching descriptions (Match without a variable) are quantified through their expression
         del made[:]
         expr = vm.alloc(cls(vm, SYM, "Entity"), {}, tag="match-expression")
+        expr.fields["_node_"] = GraphNode(expr)
         MATCH = "krrood.entity_query_language.match"
         m = vm.alloc(cls(vm, MATCH, "Match"), {"variable": None, "expression": expr}, tag="match")
         vm.call(vm.module_global(QE, "an"), [m], {"quantification": c})
@@ -478,6 +494,21 @@ def h_an_the_passthrough():
         ok = (len(made) == 2 and made[0][0] == "An" and made[0][1] == [expr] and made[0][2].get("_quantification_constraint_") is c
               and made[1][0] == "The" and made[1][1] == [expr] and not made[1][2])
         ctx.check("an/the::constraint-passed-through-for-match-descriptions", z3.BoolVal(ok), detail=repr(made))
+        # a description that is ALREADY the description of a quantifier (it was quantified before, with another constraint or none):
+        # quantifying it again gives a new quantifier with the constraint stated now
+        for old_kind, old_constraint in (("An", None), ("An", vm.alloc(cls(vm, RQC, "AtLeast"), {"value": 1}, tag="AtLeast(1)")), ("The", None)):
+            earlier = vm.alloc(cls(vm, SYM, old_kind), {"_quantification_constraint_": old_constraint}, tag="earlier-" + old_kind)
+            ent2 = vm.alloc(cls(vm, SYM, "Entity"), {}, tag="quantified-entity")
+            earlier.fields["_child_"] = ent2
+            earlier.fields["_node_"] = GraphNode(earlier)
+            ent2.fields["_node_"] = GraphNode(ent2, earlier.fields["_node_"])
+            for fn, kw, want_kind, want_c in (("an", {"quantification": c}, "An", c), ("an", {}, "An", None), ("the", {}, "The", None)):
+                del made[:]
+                r = vm.call(vm.module_global(QE, fn), [ent2], dict(kw))
+                ok = (len(made) == 1 and made[0][0] == want_kind and made[0][1] == [ent2] and made[0][2].get("_quantification_constraint_") is want_c
+                      and r is not earlier and isinstance(r, Obj) and r.tag == want_kind)
+                ctx.check("an/the::a-description-quantified-before-gets-a-new-quantifier-with-the-constraint-stated-now", z3.BoolVal(bool(ok)),
+                          detail=f"earlier {old_kind}({old_constraint!r}), now {fn}({kw}): constructed {made}, returned {r!r}")
     return Harness("an-the-passthrough", run, spec=Spec())
 
 
